@@ -1,0 +1,41 @@
+//go:build verif
+
+package head
+
+// Contracts for the goblvc verifier (see /verif/DESIGN.md). Comments only.
+//
+// ---- C09: what "the header contains the signed header" means
+//
+//@ pred stampIn(s2 *Stamp, l []*Stamp) bool = exists j int :: 0 <= j && j < len(l) && l[j].Provider == s2.Provider && l[j].Value == s2.Value
+//@ pred linkIn(l2 *Link, l []*Link) bool = exists j int :: 0 <= j && j < len(l) && l[j].Key == l2.Key && l[j].URL == l2.URL
+//@ pred tagIn(t string, l []string) bool = exists j int :: 0 <= j && j < len(l) && l[j] == t
+//@ pred wfHeader(h *Header) bool = h != nil && (forall i int :: 0 <= i && i < len(h.Stamps) ==> h.Stamps[i] != nil) && (forall i int :: 0 <= i && i < len(h.Links) ==> h.Links[i] != nil)
+//@ pred sameDigest(h *Header, h2 *Header) bool = h2.Digest != nil ==> h.Digest != nil && dsig.digestText(h.Digest.Algorithm, h.Digest.Value) == dsig.digestText(h2.Digest.Algorithm, h2.Digest.Value)
+//@ pred allStamps(h *Header, h2 *Header) bool = forall i int :: 0 <= i && i < len(h2.Stamps) ==> stampIn(h2.Stamps[i], h.Stamps)
+//@ pred allLinks(h *Header, h2 *Header) bool = forall i int :: 0 <= i && i < len(h2.Links) ==> linkIn(h2.Links[i], h.Links)
+//@ pred allTags(h *Header, h2 *Header) bool = forall i int :: 0 <= i && i < len(h2.Tags) ==> tagIn(h2.Tags[i], h.Tags)
+//@ pred allMeta(h *Header, h2 *Header) bool = forall k cbc.Key :: has(h2.Meta, k) ==> has(h.Meta, k) && h.Meta[k] == h2.Meta[k]
+//@ pred sameNotes(h *Header, h2 *Header) bool = h2.Notes != "" ==> h2.Notes == h.Notes
+//@ pred contains(h *Header, h2 *Header) bool = h.UUID == h2.UUID && sameDigest(h, h2) && allStamps(h, h2) && allLinks(h, h2) && allTags(h, h2) && allMeta(h, h2) && sameNotes(h, h2)
+//
+//@ func (h *Header) Contains(h2) (r)
+//@   requires wfHeader(h) && wfHeader(h2)
+//@   ensures [uuid] r ==> h.UUID == h2.UUID
+//@   ensures [digest] r ==> sameDigest(h, h2)
+//@   ensures [stamps] r ==> allStamps(h, h2)
+//@   ensures [links] r ==> allLinks(h, h2)
+//@   ensures [tags] r ==> allTags(h, h2)
+//@   ensures [meta] r ==> allMeta(h, h2)
+//@   ensures [notes] r ==> sameNotes(h, h2)
+//@   ensures [complete] contains(h, h2) ==> r
+//@   loop 1 invariant h.UUID == h2.UUID && sameDigest(h, h2)
+//@   loop 1 invariant forall i int :: 0 <= i && i < idx ==> stampIn(h2.Stamps[i], h.Stamps)
+//@   loop 2 invariant forall j int :: 0 <= j && j < idx ==> !(h.Stamps[j].Provider == h2.Stamps[idx1].Provider && h.Stamps[j].Value == h2.Stamps[idx1].Value)
+//@   loop 3 invariant h.UUID == h2.UUID && sameDigest(h, h2) && allStamps(h, h2)
+//@   loop 3 invariant forall i int :: 0 <= i && i < idx ==> linkIn(h2.Links[i], h.Links)
+//@   loop 4 invariant forall j int :: 0 <= j && j < idx ==> !(h.Links[j].Key == h2.Links[idx3].Key && h.Links[j].URL == h2.Links[idx3].URL)
+//@   loop 5 invariant h.UUID == h2.UUID && sameDigest(h, h2) && allStamps(h, h2) && allLinks(h, h2)
+//@   loop 5 invariant forall i int :: 0 <= i && i < idx ==> tagIn(h2.Tags[i], h.Tags)
+//@   loop 6 invariant forall j int :: 0 <= j && j < idx ==> h.Tags[j] != h2.Tags[idx5]
+//@   loop 7 invariant h.UUID == h2.UUID && sameDigest(h, h2) && allStamps(h, h2) && allLinks(h, h2) && allTags(h, h2)
+//@   loop 7 invariant forall k cbc.Key :: $visited[k] ==> has(h.Meta, k) && h.Meta[k] == h2.Meta[k]
